@@ -944,6 +944,14 @@ def match_solutions(refs, lays, tol_rel, tol_dir, geom, what, extra_L=None, n_in
                 _fmt(u["e"]), _fmt(u["r"]), t_rel, t_dir,
                 [(l["L"], l["T"], l["e"].tolist()) for l in lays][:6], geom, mark)
         j = cands[0][1]
+        # (several layered solutions within the geometric tolerance - a phantom reflection off a
+        # matched boundary centimetres from the real one, under the beta_tolerance allowance - :
+        # the counterpart is the one that also carries the amplitude)
+        ez = max(min(abs(float(u["e"][2])), abs(float(u["r"][2]))), 1e-12)
+        for m_, j_ in cands:
+            if m_ <= 1.0 and _fresnel_close(u, lays[j_], 1e-6 + 10 * t_dir + 64 * 2.2e-16 / ez ** 2):
+                j = j_
+                break
         used.add(j)
         # (a ray crossing a boundary at grazing incidence: the transmission coefficient is
         # a ratio of cosines of size |e_z|, its rounding error is ~eps/e_z^2)
@@ -997,6 +1005,11 @@ def _split_depths(draw, lo, hi, za, zb, n_split, min_gap):
         else:
             kind = "any"
             z = draw(floats(lo + min_gap, hi - min_gap))
+        # no sliver layers between an endpoint and a boundary thinner than min_gap (a layer of 1e-13 m
+        # is below the resolution of the launch-angle root search): such a depth is the endpoint itself
+        for ze in (za, zb):
+            if 0 < abs(z - ze) < min_gap:
+                z = ze
         if not (lo + min_gap <= z <= hi - min_gap) or any(abs(z - o) < min_gap for o in out):
             continue
         out.append(z)
